@@ -184,40 +184,46 @@ func TestVerif_C04_LeaseSchedules(t *testing.T) {
 				// under the per-token lock, the revocation - which cannot take that lock, lookups made under
 				// it re-enter the revocation - marks and removes the token, then UseToken stores the
 				// decremented entry again. A non-expiring token needs no lease and is a credential again.
-				// Signature: the reader read the id record at least twice (look-up and the re-read under the
-				// lock), the last of these reads precedes the revoker's mark, and the reader's write of the
-				// record follows the revoker's delete of it.
+				// (Or the write-back overwrites the mark, the reader's own liveness re-check then passes and
+				// its lease stays live.) Signature: the reader read the id record at least twice (look-up and
+				// the re-read under the lock), the last of these reads precedes the revoker's mark, and the
+				// reader's write-back of the record follows the mark.
 				var classify func(kind string, tk *c04Tok) string
 				if sc.reader == "limited" {
-					mark, del := -1, -1
+					// per reader: reads of the id record before its first write of it, and that write
 					gets, lastGet, put := map[string]int{}, map[string]int{}, map[string]int{}
+					var revPuts []int
 					for i, st := range sched.Steps {
 						if st.After || !strings.Contains(st.Key, "sys/token/id/") {
 							continue
 						}
 						_, wrote := put[st.Tag]
 						switch {
+						case st.Tag == "rev" && st.Op == "put":
+							revPuts = append(revPuts, i)
 						case st.Tag != "rev" && st.Op == "get" && !wrote:
 							gets[st.Tag]++
 							lastGet[st.Tag] = i
-						case st.Tag == "rev" && st.Op == "put" && mark < 0:
-							mark = i
-						case st.Tag == "rev" && st.Op == "delete":
-							del = i
-						case st.Tag != "rev" && st.Op == "put" && del >= 0 && !wrote:
+						case st.Tag != "rev" && st.Op == "put" && !wrote:
 							put[st.Tag] = i
 						}
 					}
 					window := false
 					for tag, p := range put {
-						if gets[tag] >= 2 && mark >= 0 && lastGet[tag] < mark && del > mark && p > del {
-							window = true
+						mark := -1 // the revoker's last write of the record before the reader's write-back
+						for _, rp := range revPuts {
+							if rp < p {
+								mark = rp
+							}
+						}
+						if gets[tag] >= 2 && mark >= 0 && lastGet[tag] < mark {
+							window = true // the reader's re-read under the lock saw the record before the mark, its write-back came after
 						}
 					}
 					if window {
 						classify = func(kind string, tk *c04Tok) string {
-							if kind == "dead-token-usable" && tk == parent {
-								return "C04-F59-use-count-write-after-revoker-delete-resurrects-non-expiring-token"
+							if (kind == "dead-token-usable" || kind == "lease-live") && tk == parent {
+								return "C04-F59-use-count-write-back-lands-after-the-revokers-mark"
 							}
 							return ""
 						}
